@@ -28,6 +28,67 @@ def strategy(tier):
     return substgen.subst_case_with_probes(dict_bias=4)
 
 
+def _any_refuses_its_accepting_alternative(Sn, v):
+    """Is there, along v, an any(...) node such that every alternative that *validates* the sub-value
+    refuses to take it with 'Unknown key' (a relaxed dict alternative given an undeclared key)?"""
+    from d42 import substitute, validate
+    from d42.declaration.types import AnySchema, DictSchema, GenericTypeAliasSchema, ListSchema
+    from d42.substitution.errors import SubstitutionError
+    from niltype import Nil
+    if isinstance(Sn, GenericTypeAliasSchema):
+        return _any_refuses_its_accepting_alternative(Sn.props.type, v)
+    if isinstance(Sn, AnySchema) and Sn.props.types is not Nil:
+        ok = [a for a in Sn.props.types if not validate(a, v).has_errors()]
+        if ok:
+            refused = 0
+            for a in ok:
+                try:
+                    substitute(a, v)
+                except SubstitutionError as e:
+                    if "Unknown key" in str(e):
+                        refused += 1
+                except Exception:  # noqa
+                    pass
+            if refused == len(ok):
+                return True
+        return any(_any_refuses_its_accepting_alternative(a, v) for a in Sn.props.types)
+    if isinstance(Sn, DictSchema) and isinstance(v, dict) and Sn.props.keys is not Nil:
+        return any(_any_refuses_its_accepting_alternative(sch, v[k])
+                   for k, (sch, _) in Sn.props.keys.items() if k is not Ellipsis and k in v)
+    if isinstance(Sn, ListSchema) and isinstance(v, list):
+        if Sn.props.type is not Nil:
+            return any(_any_refuses_its_accepting_alternative(Sn.props.type, x) for x in v)
+        el = Sn.props.elements
+        if el is not Nil and not any(x is Ellipsis for x in el) and len(el) == len(v):
+            return any(_any_refuses_its_accepting_alternative(e, x) for e, x in zip(el, v))
+    return False
+
+
+def classify(case, v):
+    """Known finding: `any(...) % value` keeps only the alternatives the value can be substituted into;
+    a relaxed dict alternative refuses every undeclared key ('Unknown key'), so the one alternative that
+    actually accepts the value can be dropped and the result then rejects the value it was given."""
+    if v.key == "result-rejects-substituted-value":
+        try:
+            S = specs.build(case["spec"], share={} if case.get("share") else None)
+            if _any_refuses_its_accepting_alternative(S, values.realize(case["value"])):
+                return "any-drops-the-accepting-relaxed-alternative"
+        except Exception:  # noqa
+            pass
+    return v.key
+
+
+KNOWN = {
+    "any-drops-the-accepting-relaxed-alternative": {
+        "spec": {"t": "any", "alts": [
+            {"t": "dict", "entries": [{"key": "a", "opt": False, "spec": {"t": "int"}},
+                                      {"key": "name", "opt": False, "spec": {"t": "str"}}], "relaxed": True},
+            {"t": "dict", "entries": [{"key": "a", "opt": True, "spec": {"t": "int"}}], "relaxed": True}]},
+        "value": {"name": ""}, "full": {"a": 0, "name": ""}, "kind": "extra-keys-sparse", "rng": [], "probes": [],
+    },
+}
+
+
 def _r(x):
     try:
         return repr(x)
